@@ -12,7 +12,8 @@ RULE = ('random well-formed circuits built through the public API (all gate type
         'repeated operands, constants with operands, dead gates, unused inputs, outputs that are inputs/'
         'repeated/absent, storage order != topological, odd labels) x all 2^n total assignments (n<=6) x '
         '{evaluate, evaluate_at, evaluate_circuit(+output subsets), evaluate_circuit_outputs, '
-        'evaluate_full_circuit, get_truth_table, get_gates_truth_table}; non-trivial = >=1 non-input gate; '
+        'evaluate_full_circuit, get_truth_table, get_gates_truth_table}; the same object queried again after edits '
+        '(gate redefined under its label, renamed, outputs reset, gate added); non-trivial = >=1 non-input gate; '
         'distinct = distinct (entry point, circuit, assignment)')
 ASSUMPTIONS = ['circuits are well formed (WFU); total assignments on inputs']
 TRUSTED = ['search oracle: Lean checker checkValB (decides IsValB, unique by c01_den_unique)']
@@ -229,6 +230,96 @@ def search(ctx):
             except Exception as e:  # noqa: BLE001
                 # which circuits into_bench accepts (e.g. constants need an input to hang on) is C14's clause
                 ctx.count('into_bench_raised:' + type(e).__name__)
+    edited_objects(ctx)
+
+
+def snapshot(c):
+    """every entry point on this very object, over all total assignments"""
+    from common import v3p
+    ins = list(c.inputs)
+    out = {}
+    for bits in itertools.product('FT', repeat=len(ins)):
+        asg = {i: v3p(b) for i, b in zip(ins, bits)}
+        out['full', bits] = sorted((k, v3s(v)) for k, v in c.evaluate_full_circuit(dict(asg)).items())
+        out['outs', bits] = sorted((k, v3s(v)) for k, v in c.evaluate_circuit_outputs(dict(asg)).items())
+        out['evaluate', bits] = [v3s(x) for x in c.evaluate([v3p(b) for b in bits])]
+    out['gates_tt'] = sorted((k, ''.join(v3s(x) for x in v)) for k, v in c.get_gates_truth_table().items())
+    if c.outputs:
+        out['tt'] = [''.join(v3s(x) for x in row) for row in c.get_truth_table()]
+    return out
+
+
+def edited_objects(ctx):
+    """one Circuit object, queried, edited through the public API, queried again: after every edit each entry
+    point must answer as a circuit freshly built from the object's current gates does (whose answers the main
+    stream checks against the denotation)"""
+    from common import circ_from_json, circ_to_json
+    from cirbo.core.circuit import gate as G
+    rng = ctx.rng('edits')
+    types2 = [G.AND, G.OR, G.XOR, G.NAND, G.NOR, G.NXOR, G.GT, G.LT, G.GEQ, G.LEQ, G.LIFF, G.RIFF, G.LNOT, G.RNOT]
+    for k in range(ctx.scale(60, 1500)):
+        j, info = gen.gen_circuit(rng, max_inputs=4, max_gates=10, max_arity=4, min_inputs=1)
+        j = realize(j)
+        c = circ_from_json(j)
+        edits = []
+        try:
+            snapshot(c)
+        except Exception:  # noqa: BLE001
+            continue
+        for step in range(rng.randint(1, 4)):
+            labels = list(c.gates)
+            non_in = [l for l in labels if c.get_gate(l).gate_type != G.INPUT]
+            kind = rng.choice(['redefine', 'redefine', 'rename', 'rename_input', 'outputs', 'add'])
+            try:
+                if kind == 'redefine':
+                    # a gate nobody uses is removed and defined anew under the same label (the gate count stays)
+                    free = [l for l in non_in if not c.get_gate_users(l) and l not in c.outputs]
+                    if not free:
+                        continue
+                    l = rng.choice(free)
+                    ops = [rng.choice([x for x in labels if x != l]) for _ in range(2)]
+                    t = rng.choice(types2)
+                    c.remove_gate(l)
+                    c.emplace_gate(l, t, tuple(ops))
+                    c.mark_as_output(l)
+                    edits.append(['redefine', l, t.name, ops])
+                elif kind == 'rename' and non_in:
+                    l = rng.choice(non_in)
+                    c.rename_gate(l, 'rn%d_%s' % (step, l))
+                    edits.append(['rename', l])
+                elif kind == 'rename_input':
+                    l = rng.choice(list(c.inputs))
+                    c.rename_gate(l, 'ri%d_%s' % (step, l))
+                    edits.append(['rename', l])
+                elif kind == 'outputs':
+                    outs = [rng.choice(labels) for _ in range(rng.randint(1, 3))]
+                    c.set_outputs(outs)
+                    edits.append(['set_outputs', outs])
+                else:
+                    l = 'new%d' % step
+                    ops = [rng.choice(labels) for _ in range(2)]
+                    t = rng.choice(types2)
+                    c.emplace_gate(l, t, tuple(ops))
+                    c.mark_as_output(l)
+                    edits.append(['add', l, t.name, ops])
+            except Exception as e:  # noqa: BLE001
+                ctx.count('edit_refused:' + type(e).__name__)
+                break
+            now = circ_to_json(c)
+            ctx.case(json.dumps(['edited', j['gates'], j['outputs'], edits]))
+            try:
+                same = snapshot(c)
+            except Exception as e:  # noqa: BLE001
+                ctx.violation('eval.after_edit_raises', f'evaluation of an edited circuit object raised {err_name(e)}',
+                              input={'c': j, 'edits': edits})
+                break
+            fresh = snapshot(circ_from_json(now))
+            if same != fresh:
+                key = sorted(str(x) for x in same if same.get(x) != fresh.get(x))[0]
+                ctx.violation('eval.stale_after_edit', f'after {edits[-1]} the object answers {key} differently from a circuit '
+                              'built afresh from the same gates', input={'c': j, 'edits': edits, 'now': now})
+                break
+            ctx.count('edited:' + kind)
 
 
 def replay(ctx, rp):
